@@ -159,6 +159,23 @@ Proof.
   apply hscen_decl_ev.
 Qed.
 
+Lemma gscen_file_shoot_spec name reg items samples :
+  gscen_file_shoot name reg items = Some samples -> samples = gscen_file_spec name reg items.
+Proof.
+  unfold gscen_file_shoot, gscen_file_spec. destruct (scen_steps reg [] items) as [st|] eqn:E; [|discriminate].
+  cbn [option_map]. intros H. injection H as <-. apply scen_steps_sound in E. cbn [app] in E. subst st.
+  apply gscen_decl_shoot_spec.
+Qed.
+
+Lemma gscen_file_ev_spec name reg items tr :
+  gscen_file_ev name reg items = Some tr ->
+  handoff_ok false tr = true /\ at_report tr = gscen_file_spec name reg items /\ at_end tr = gscen_file_spec name reg items.
+Proof.
+  unfold gscen_file_ev, gscen_file_spec. destruct (scen_steps reg [] items) as [st|] eqn:E; [|discriminate].
+  cbn [option_map]. intros H. injection H as <-. apply scen_steps_sound in E. cbn [app] in E. subst st.
+  apply gscen_decl_ev.
+Qed.
+
 (* ---------- a run through the phout queue ---------- *)
 
 Lemma shot_reports_spec s : shot_reports s = shot_spec s.
